@@ -280,6 +280,20 @@ func (r *SexpArray) Type() *RegisteredType {
 }
 
 func (arr *SexpArray) SexpString(ps *PrintState) string {
+	// an array can be made to contain itself ((aset a 0 a)): the arrays on
+	// the path being printed are remembered, and one met again is elided.
+	if ps == nil {
+		ps = NewPrintState()
+	}
+	if ps.GetSeen(arr) {
+		if arr.Infix {
+			return "{...}"
+		}
+		return "[...]"
+	}
+	ps.SetSeen(arr, "SexpArray")
+	defer delete(ps.Seen, arr)
+
 	indInner := ""
 	indent := ps.GetIndent()
 	innerPs := ps.AddIndent(4) // generates a fresh new PrintState
